@@ -69,6 +69,11 @@ type (
 		init1, init2       sync.Once
 		init1err, init2err error
 
+		// lazyLock guards the members that are created on first use by
+		// concurrently running request handlers (mapper, readOnlyMapper, w, ce,
+		// ee, tracer).
+		lazyLock sync.Mutex
+
 		healthH        *healthx.Handler
 		healthServer   *health.Server
 		handlers       []Handler
@@ -102,6 +107,8 @@ type (
 )
 
 func (r *RegistryDefault) Mapper() *relationtuple.Mapper {
+	r.lazyLock.Lock()
+	defer r.lazyLock.Unlock()
 	if r.mapper == nil {
 		r.mapper = &relationtuple.Mapper{D: r}
 	}
@@ -109,6 +116,8 @@ func (r *RegistryDefault) Mapper() *relationtuple.Mapper {
 }
 
 func (r *RegistryDefault) ReadOnlyMapper() *relationtuple.Mapper {
+	r.lazyLock.Lock()
+	defer r.lazyLock.Unlock()
 	if r.readOnlyMapper == nil {
 		r.readOnlyMapper = &relationtuple.Mapper{D: r, ReadOnly: true}
 	}
@@ -171,6 +180,8 @@ func (r *RegistryDefault) GetVersion(_ context.Context, _ *rts.GetVersionRequest
 }
 
 func (r *RegistryDefault) Tracer(ctx context.Context) *otelx.Tracer {
+	r.lazyLock.Lock()
+	defer r.lazyLock.Unlock()
 	if r.tracer == nil {
 		// Tracing is initialized only once, so it can not be hot reloaded or context-aware.
 		t, err := otelx.New("Ory Keto", r.Logger(), r.Config(ctx).TracingConfig())
@@ -211,6 +222,8 @@ func (r *RegistryDefault) Logger() *logrusx.Logger {
 }
 
 func (r *RegistryDefault) Writer() herodot.Writer {
+	r.lazyLock.Lock()
+	defer r.lazyLock.Unlock()
 	if r.w == nil {
 		r.w = herodot.NewJSONWriter(r.Logger())
 	}
@@ -253,6 +266,8 @@ func (r *RegistryDefault) Traverser() relationtuple.Traverser {
 }
 
 func (r *RegistryDefault) PermissionEngine() *check.Engine {
+	r.lazyLock.Lock()
+	defer r.lazyLock.Unlock()
 	if r.ce == nil {
 		r.ce = check.NewEngine(r)
 	}
@@ -260,6 +275,8 @@ func (r *RegistryDefault) PermissionEngine() *check.Engine {
 }
 
 func (r *RegistryDefault) ExpandEngine() *expand.Engine {
+	r.lazyLock.Lock()
+	defer r.lazyLock.Unlock()
 	if r.ee == nil {
 		r.ee = expand.NewEngine(r)
 	}
